@@ -26,6 +26,11 @@ var refUnitWords = map[string]string{
 	"By": "bytes",
 	"1":  "ratio",
 	"%":  "percent",
+	// the rest of the documented table (job "units"; the name enumeration uses the five above)
+	"d": "days", "h": "hours", "min": "minutes", "us": "microseconds", "ns": "nanoseconds",
+	"KiBy": "kibibytes", "MiBy": "mebibytes", "GiBy": "gibibytes", "TiBy": "tibibytes",
+	"KBy": "kilobytes", "MBy": "megabytes", "GBy": "gigabytes", "TBy": "terabytes",
+	"m": "meters", "V": "volts", "A": "amperes", "J": "joules", "W": "watts", "g": "grams", "Cel": "celsius", "Hz": "hertz",
 }
 
 func refIsAlnum(b byte) bool {
